@@ -1029,7 +1029,7 @@ fn tracing__issued_keys_are_registered_and_valid() {
     let mut foreign = cc.generate_user_secret_key(&mut other, &ap("DPT::FIN")).unwrap();
     let before = (foreign.serialize().unwrap().to_vec(), msk.serialize().unwrap().to_vec());
     vchk!(cc.refresh_usk(&mut msk, &mut foreign, true).is_err(), "C17/C08: a key whose identifier the master key does not know is refused");
-    vchk!((foreign.serialize().unwrap().to_vec(), msk.serialize().unwrap().to_vec()) == before, "C10: a refused refresh modifies neither key");
+    vchk!((foreign.serialize().unwrap().to_vec(), msk.serialize().unwrap().to_vec()) == before, "C10/C17: a refused refresh modifies neither key (the issued key keeps its registered identifier)");
     println!("VERIF-COUNT tracing__issued_keys_are_registered_and_valid {n}");
     done();
 }
